@@ -161,3 +161,27 @@ func H_C08_NodeDescendants() {
 	rt.Assert(wf(r), "C08.descendants.wf")
 	rt.Assert(norm(r), "C08.descendants.norm")
 }
+
+// H_C08_Sequence: the invariant is about every list a sequence of operations has produced, not only the latest one:
+// results obtained earlier from a receiver (whose slices have spare capacity, as lists grown by AddRootNode / AddEdge
+// have) are still well-formed after the receiver is used again.
+func H_C08_Sequence() {
+	a := c12hist("a", "n0")
+	b := c12hist("b", []string{"n0", "n1"}[rt.NondetChoice("bshares", 2)])
+	c := c12hist("c", []string{"n0", "n2"}[rt.NondetChoice("cshares", 2)])
+	ab := a.Union(b)
+	ia := a.Intersect(b)
+	switch rt.NondetChoice("then", 4) {
+	case 0:
+		a.Union(c)
+	case 1:
+		a.Add(c)
+	case 2:
+		a.AddRootNode(sentinelNode("n3", "x"))
+	case 3:
+		a.RemoveNodes([]string{"n0"})
+	}
+	rt.Assert(rt.And(wf(ab), norm(ab)), "C08.sequence.union")
+	rt.Assert(rt.And(wf(ia), norm(ia)), "C08.sequence.intersect")
+	rt.Assert(wf(a), "C08.sequence.receiver")
+}
